@@ -1,0 +1,26 @@
+//go:build verif
+
+package main
+
+// Contracts for the verification machinery under /verif (comment-only file;
+// compiled only with -tags verif, contains no executable code).
+
+//@ spec expandLoc(r string, wd string, gp string, gr string) string = ite(hasPrefix(r, "./"), wd ++ substr(r, 2, len(r)), ite(hasPrefix(r, "$GOPATH/"), gp ++ substr(r, 8, len(r)), ite(hasPrefix(r, "$GOROOT/"), gr ++ substr(r, 8, len(r)), r)))
+
+//@ func addTrailingSlash
+//@   prop C16
+//@   ensures @ends-with-slash hasSuffix(result, "/")
+//@   ensures @only-appends result == s || result == s ++ "/"
+
+//@ func (*program).shortenLocation
+//@   prop C16
+//@   requires p != nil
+//@   requires @abs-loc hasPrefix(loc, "/") && !contains(loc, "//")
+//@   requires @roots-normalised hasPrefix(p.workDir, "/") && hasSuffix(p.workDir, "/") && hasPrefix(p.gopath, "/") && hasSuffix(p.gopath, "/") && hasPrefix(p.goroot, "/") && hasSuffix(p.goroot, "/") && !contains(p.workDir, "//") && !contains(p.gopath, "//") && !contains(p.goroot, "//")
+//@   ensures @expand-roundtrip expandLoc(result, p.workDir, p.gopath, p.goroot) == loc
+
+//@ func (*program).exit
+//@   prop C16
+//@   requires p != nil
+//@   call os.Exit requires @exit-only-with-issues p.foundIssues && arg0 == p.exitCode
+//@   ensures @returns-only-without-issues !old(p.foundIssues) && result == nil
